@@ -39,7 +39,7 @@ Q03 = [("lifecycle", 24000), ("owning", 8000), ("handles", 6000), ("mailbox", 40
 Q04 = [("lifecycle", 30000), ("owning", 12000), ("mailbox", 6000), ("backpressure", 4000), ("timeout", 8000), ("restart", 4000), ("faults+faults", 250), ("lifecycle+faults", 250), ("mix", 10000), ("mix+faults", 150), ("stream", 8000)]
 Q05 = [("handles", 24000), ("lifecycle", 12000), ("owning", 6000), ("mailbox", 4000), ("broker", 8000), ("stream", 6000), ("timers", 6000), ("tree", 8000), ("svckeep", 6000), ("mix", 10000)]
 Q12 = [("backpressure", 30000), ("mailbox", 10000), ("lifecycle", 4000), ("mix", 10000)]
-Q17 = [("owning", 30000), ("lifecycle", 10000), ("mailbox", 4000), ("timeout", 8000), ("restart", 8000), ("mix", 10000)]
+Q17 = [("owning", 30000), ("lifecycle", 10000), ("mailbox", 4000), ("timeout", 8000), ("restart", 8000), ("mix", 10000), ("owning+faults", 400)]
 
 Q07 = [("restart", 30000), ("lifecycle", 12000), ("kinds", 4000), ("mix", 10000)]
 Q10 = [("timers", 30000), ("restart", 6000), ("handles", 6000), ("kinds", 6000), ("lifecycle", 4000), ("timeout", 10000), ("backpressure", 6000), ("mix", 10000)]
@@ -85,7 +85,7 @@ PLANS = {
                 mt=[('backpressure', 640), ('mix', 160)], mt_required=['L2:C12.R1.send_returned', 'L2:C12.R3.unbounded_never_waits']),
     "C17": plan(Q17, scale(Q17, 40),
                 "a join/consume yielded the actor, or an OwningAddr was detached",
-                ["C17.R1.join_after_stopped", "C17.R1.first_join_result", "C17.R2.final_state", "C17.R3.at_most_once", "C17.R3.unpolled_join_takes_nothing", "C17.R4.join_resolves",
+                ["C17.R1.join_after_stopped", "C17.R1.first_join_result", "C17.R2.final_state", "C17.R3.at_most_once", "C17.R3.unpolled_join_takes_nothing", "C17.R4.join_resolves", "C17.R1.none_on_failed",
                  "C17.R6.detach_keeps_running"],
                 mt=[('owning', 480), ('mix', 160)], mt_required=['L2:C17.R2.final_state', 'L2:C17.R3.at_most_once']),
     "C07": plan(Q07, scale(Q07, 40),
